@@ -36,6 +36,9 @@ macro_rules! mkfn {
         }) as MkFn
     }};
 }
+fn inject(_r: &Req) -> IErr {
+    IErr { code: 99, serial: 0 }
+}
 fn build(cfg: &Value, sim: &Sim, seed: u64, mode: u64) -> MkFn {
     let u = |k: &str| cfg[k].as_u64().unwrap();
     let inner = Inner::new(&sim.w);
@@ -45,14 +48,27 @@ fn build(cfg: &Value, sim: &Sim, seed: u64, mode: u64) -> MkFn {
         let layer = ChaosLayer::builder().latency_rate(lr).min_latency(Duration::from_millis(u("mn"))).max_latency(Duration::from_millis(u("mx"))).seed(seed).build();
         mkfn!(layer.layer(inner), mode)
     } else {
-        let layer = ChaosLayer::builder()
-            .error_rate(er)
-            .error_fn(|_r: &Req| IErr { code: 99, serial: 0 })
-            .latency_rate(lr)
-            .min_latency(Duration::from_millis(u("mn")))
-            .max_latency(Duration::from_millis(u("mx")))
-            .seed(seed)
-            .build();
+        let (mn, mx) = (Duration::from_millis(u("mn")), Duration::from_millis(u("mx")));
+        // builder call order: latency settings before or after the (typestate-changing) error settings
+        let layer = if cfg["ord"].as_u64().unwrap_or(0) == 1 {
+            ChaosLayer::builder()
+                .latency_rate(lr)
+                .min_latency(mn)
+                .max_latency(mx)
+                .seed(seed)
+                .error_rate(er)
+                .error_fn(inject as fn(&Req) -> IErr)
+                .build()
+        } else {
+            ChaosLayer::builder()
+                .error_rate(er)
+                .error_fn(inject as fn(&Req) -> IErr)
+                .latency_rate(lr)
+                .min_latency(mn)
+                .max_latency(mx)
+                .seed(seed)
+                .build()
+        };
         mkfn!(layer.layer(inner), mode)
     }
 }
@@ -153,7 +169,7 @@ pub fn run_chaos(seed: u64, size: Size, out: &mut Vec<String>) -> (usize, usize)
         for lr in [0u64, 30, 100] {
             for (mn, mx) in [(10u64, 10u64), (10, 20), (20, 10), (0, 0), (0, 3)] {
                 for s in 0..nseeds {
-                    cfgs.push((json!({"er":er,"lr":lr,"mn":mn,"mx":mx,"seeded":1,"noinj": (s % 2)}), s as u64 * 7919 + seed));
+                    cfgs.push((json!({"er":er,"lr":lr,"mn":mn,"mx":mx,"seeded":1,"noinj": (s % 2),"ord": ((s / 2) % 2)}), s as u64 * 7919 + seed));
                 }
             }
         }
